@@ -3,7 +3,8 @@ import importlib, sys, json
 from sx import runner
 mod = importlib.import_module('props.' + sys.argv[1].lower())
 tier = sys.argv[3] if len(sys.argv) > 3 else 'quick'
-for s in mod.shapes(tier, 0):
+import os
+for s in mod.shapes(tier, int(os.environ.get('VERIF_SEED', '0'))):
     if sys.argv[2] in s.sid:
         r = runner.run_shape((s, {'prop': mod.ID, 'known': runner.load_known(mod.ID), 'profile': False, 'max_witness': 2, 'shape_wall_s': 120}))
         for k in ('shape', 'paths', 'queries', 'solver_s', 'outcomes', 'obligations', 'discharged', 'inconclusive', 'overflow_paths', 'validated', 'cli_validated', 'shape_wall_s'):
